@@ -40,6 +40,8 @@ def run(ctx):
     ctx.decided("runtime-size formula terms vs wire sizes (W4)")
     ctx.decided("writer arm and paired encoder for every (usage, type) pair the reader decodes; writer widths (SIBLING)")
     ctx.decided("writer seek provenance (SEEK); declaration padding to 17 slots with 0xFF terminator (DECL)")
+    ctx.decided("attribute encoders round before every float to integer cast (ENCODE)")
+    ctx.decided("edit operations store the geometry supplied by the caller; update_headers derives every header field from the model (EDIT)")
     ctx.not_decided("inverse-ness of the attribute codecs on all values; update_headers arithmetic; edit histories; terrain-shadow tables")
 
     for t in TREE:
@@ -196,6 +198,122 @@ def run(ctx):
         ctx.ob("SEEK", "element", len(elem) == 1 and "Mul" in elem[0].ops, f"writer element seek derives from {sorted(elem[0].names) if elem else None}; must include the same five terms as the reader", wbody.file, wbody.line, sample=True)
         idx = [d for d in seeks if {"index_offsets", "start_index"} <= d.names]
         ctx.ob("SEEK", "indices", len(idx) == 1 and "Mul" in idx[0].ops and (2 in idx[0].consts or any(c.endswith("size_of") for c in idx[0].calls)), f"writer index seek derives from {sorted(idx[0].names) if idx else None}", wbody.file, wbody.line)
+
+    # ---- ENCODE: no float -> integer truncation in the attribute encoders (every such cast is preceded by round())
+    enc_bodies = [b_ for n_, b_ in prog.bodies.items() if n_.startswith("model_file_operations::") and b_.j["kind"] in ("Fn", "AssocFn")]
+    n_casts = 0
+    for b_ in enc_bodies:
+        eix = index_of(b_)
+        for _bi, _si, s_ in b_.stmts():
+            rv = s_.get("rv", {})
+            if rv.get("k") == "cast" and rv.get("ck") == "FloatToInt":
+                n_casts += 1
+                d_ = derive(eix, rv["a"])
+                rounded = any(c_.endswith("::round") for c_ in d_.calls)
+                ctx.ob("ENCODE", f"{b_.name.split('::')[-1]}|round-before-cast", rounded, f"{b_.name}: a float is converted to {rv.get('to')} " + ("after round()" if rounded else "by truncation (no round() on the way): bytes decoded to values just below an integer step are written one lower"), b_.file, int(s_["sp"]["at"].split(":")[-2]), sample=(n_casts == 1))
+    ctx.floor("ENCODE", "float-to-integer casts in the attribute encoders", n_casts, 2)
+    for fn, (n_from, n_bits) in (("write_half4", (4, 4)), ("write_half2", (2, 2))):
+        b_ = next((x for nme, x in prog.bodies.items() if nme.endswith("::" + fn) and "MDL" in nme), None)
+        if b_:
+            calls = [((t_.get("res") or (t_["f"].get("k") or {}).get("fn") or "")).split("::")[-1] for _bi, t_ in b_.calls()]
+            ctx.ob("ENCODE", f"{fn}|half", calls.count("from_f32") == n_from and calls.count("to_bits") == n_bits, f"{fn} encodes with {calls.count('from_f32')} x f16::from_f32 and {calls.count('to_bits')} x to_bits", b_.file, b_.line)
+
+    # ---- EDIT: edit operations store what the caller supplied; header recomputation derives from the model's own fields
+    def field_assigns(body_):
+        eix = index_of(body_)
+        out = []
+        for _bi, _si, s_ in body_.stmts():
+            if s_["k"] != "assign":
+                continue
+            names_ = [pr.get("n") for pr in s_["lhs"]["p"] if isinstance(pr, dict) and "n" in pr]
+            # writes through a &mut temp: (*_x).field with _x = &mut a.b[c]
+            base = derive(eix, {"c": {"l": s_["lhs"]["l"], "p": [], "ty": ""}}) if s_["lhs"]["p"] and s_["lhs"]["p"][0] == "*" else None
+            if not names_:
+                continue
+            rv = s_["rv"]
+            d_ = None
+            if rv["k"] in ("use", "cast"):
+                d_ = derive(eix, rv["a"])
+            elif rv["k"] == "bin":
+                d_ = derive(eix, rv["a"])
+                d2 = derive(eix, rv["b"])
+                d_.names |= d2.names
+                d_.calls |= d2.calls
+                d_.params |= d2.params
+                d_.consts |= d2.consts
+                d_.ops |= d2.ops | {rv["op"].replace("WithOverflow", "")}
+            if d_ is not None:
+                out.append((names_, d_, s_, (base.names if base else set())))
+        return out, eix
+
+    rvb = prog.body("model::MDL::replace_vertices")
+    if not rvb:
+        ctx.fail_closed("EDIT", "model::MDL::replace_vertices not found")
+    else:
+        fa, eix = field_assigns(rvb)
+
+        def has(target, need_names=(), need_params=(), need_calls=()):
+            for names_, d_, _s, _b in fa:
+                if names_[-1] == target and set(need_names) <= d_.names and set(need_params) <= d_.params and all(any(c_.endswith(nc) for c_ in d_.calls) for nc in need_calls):
+                    return True
+            return False
+
+        ctx.ob("EDIT", "replace|submesh-offset", has("index_offset", {"index_offset"}, {6}), "replace_vertices stores submeshes[i].index_offset of the caller's sub-mesh list (parameter `submeshes`)", rvb.file, rvb.line, sample=True)
+        ctx.ob("EDIT", "replace|submesh-count", has("index_count", {"index_count"}, {6}), "replace_vertices stores submeshes[i].index_count of the caller's sub-mesh list", rvb.file, rvb.line)
+        ctx.ob("EDIT", "replace|vertex-count", has("vertex_count", {"vertices"}, (), ("::len",)), "mesh.vertex_count = part.vertices.len()", rvb.file, rvb.line)
+        ctx.ob("EDIT", "replace|index-count", has("index_count", {"indices"}, (), ("::len",)), "mesh.index_count = part.indices.len()", rvb.file, rvb.line)
+        ctx.ob("EDIT", "replace|copies-input", has("vertices", (), {4}) and has("indices", (), {5}), "part.vertices / part.indices are copied from the caller's slices", rvb.file, rvb.line)
+        ctx.ob("EDIT", "replace|updates-headers", any((t_.get("res") or "").endswith("MDL::update_headers") for _bi, t_ in rvb.calls()), "replace_vertices recomputes the headers", rvb.file, rvb.line, trivial=True)
+    for fn in ("model::MDL::remove_shape_meshes", "model::MDL::add_shape_mesh"):
+        b_ = prog.body(fn)
+        ctx.ob("EDIT", f"{fn.split('::')[-1]}|updates-headers", bool(b_) and any((t_.get("res") or "").endswith("MDL::update_headers") for _bi, t_ in b_.calls()), f"{fn} recomputes the headers", b_.file if b_ else None, b_.line if b_ else None, trivial=True)
+    uhb = prog.body("model::MDL::update_headers")
+    if not uhb:
+        ctx.fail_closed("EDIT", "model::MDL::update_headers not found")
+    else:
+        fa, eix = field_assigns(uhb)
+
+        def has2(target, need_names=(), need_ops=(), need_calls=(), need_consts=()):
+            for names_, d_, _s, _b in fa:
+                if names_[-1] == target and set(need_names) <= d_.names and set(need_ops) <= d_.ops and set(need_consts) <= d_.consts and all(any(c_.endswith(nc) for c_ in d_.calls) for nc in need_calls):
+                    return True
+            return False
+
+        ctx.ob("EDIT", "headers|start_index", has2("start_index", {"submeshes", "submesh_index", "index_offset"}), "mesh.start_index = submeshes[mesh.submesh_index].index_offset", uhb.file, uhb.line, sample=True)
+        acc_ok = False
+        for _bi, _si, s_ in uhb.stmts():
+            rv = s_.get("rv", {})
+            if rv.get("k") == "bin" and rv["op"].startswith("Mul"):
+                d_ = derive(eix, rv["a"])
+                d2 = derive(eix, rv["b"])
+                if "vertex_count" in (d_.names | d2.names) and "vertex_buffer_strides" in (d_.names | d2.names):
+                    acc_ok = True
+        ctx.ob("EDIT", "headers|stream-size", acc_ok and has2("vertex_buffer_offsets"), "vertex_buffer_offsets[i] = running offset, advanced by vertex_count * vertex_buffer_strides[i]", uhb.file, uhb.line)
+        ctx.ob("EDIT", "headers|lod-vertex-size", has2("vertex_buffer_size"), "lod.vertex_buffer_size is recomputed", uhb.file, uhb.line, trivial=True)
+        pad_consts = set()
+        for _bi, _si, s_ in uhb.stmts():
+            rv = s_.get("rv", {})
+            if rv.get("k") == "bin" and rv["op"].replace("WithOverflow", "") in ("Rem", "Sub"):
+                for o in (rv["a"], rv["b"]):
+                    v = const_int(o)
+                    if v is not None and v > 1:
+                        pad_consts.add((rv["op"].replace("WithOverflow", ""), v))
+        ctx.ob("EDIT", "headers|index-padding-16", ("Rem", 16) in pad_consts and ("Sub", 16) in pad_consts and all(v == 16 for _o, v in pad_consts), f"index padding arithmetic constants {sorted(pad_consts)}; sections are padded to 16 bytes", uhb.file, uhb.line)
+        ctx.ob("EDIT", "headers|vertex-data-offset", has2("vertex_data_offset", (), {"Add"}), "lod.vertex_data_offset = data_offset + running offset", uhb.file, uhb.line)
+        ctx.ob("EDIT", "headers|index-data-offset", has2("index_data_offset", (), {"Add"}), "lod.index_data_offset = data_offset + running offset (after the vertex section)", uhb.file, uhb.line)
+        ctx.ob("EDIT", "headers|sizes", has2("stack_size", (), (), ("::calculate_stack_size",)) and has2("runtime_size", (), (), ("::calculate_runtime_size",)), "stack_size / runtime_size come from their calculators", uhb.file, uhb.line)
+        do_ok = False
+        names_l = {v_: k_ for k_, v_ in uhb.local_names().items()}
+        if "data_offset" in names_l:
+            d_ = derive(eix, {"c": {"l": names_l["data_offset"], "p": [], "ty": "u32"}})
+            do_ok = {"runtime_size", "stack_size"} <= d_.names and (0x44 in d_.consts or any(c_.endswith("size_of") for c_ in d_.calls))
+        ctx.ob("EDIT", "headers|data-offset", do_ok, "data_offset = runtime_size + size_of::<ModelFileHeader>() + stack_size", uhb.file, uhb.line)
+        for tgt, src in (("vertex_buffer_size", "vertex_buffer_size"), ("vertex_offsets", "vertex_data_offset"), ("index_buffer_size", "index_buffer_size"), ("index_offsets", "index_data_offset")):
+            ok = any(n_[-1] == tgt and "file_header" in n_ and src in d_.names and "lods" in d_.names for n_, d_, _s, _b in fa)
+            ctx.ob("EDIT", f"headers|file-header.{tgt}", ok, f"file_header.{tgt}[i] = model_data.lods[i].{src}", uhb.file, uhb.line)
+        for tgt, src in (("shape_count", "shapes"), ("shape_mesh_count", "shape_meshes"), ("shape_value_count", "shape_values")):
+            ok = any(n_[-1] == tgt and src in d_.names and any(c_.endswith("::len") for c_ in d_.calls) for n_, d_, _s, _b in fa)
+            ctx.ob("EDIT", f"headers|{tgt}", ok, f"header.{tgt} = {src}.len()", uhb.file, uhb.line)
 
     # ---- DECL
     vw = prog.body("model_vertex_declarations::vertex_element_writer")
